@@ -24,7 +24,9 @@ import (
 
 type C13Scenario struct {
 	// Metrics: the Exchange is built WithMetrics (a configuration that must not change any result)
-	Metrics   bool        `json:"metrics,omitempty"`
+	Metrics bool `json:"metrics,omitempty"`
+	// Restart: the Exchange is stopped and started again before it is used
+	Restart   bool        `json:"restart,omitempty"`
 	Method    string      `json:"method"` // get | get_by_height
 	Height    uint64      `json:"height"`
 	Peers     []Behaviour `json:"peers"`
@@ -53,6 +55,7 @@ func genC13(t *rapid.T) C13Scenario {
 		})
 	}
 	s.Metrics = rapid.IntRange(0, 3).Draw(t, "metrics") == 0
+	s.Restart = rapid.IntRange(0, 3).Draw(t, "restart") == 0
 	return s
 }
 
@@ -67,8 +70,8 @@ func c13SendsWellFormed(kind string) bool {
 func c13Exact(kind string) bool { return kind == bhCorrect || kind == bhSeveral }
 
 func runC13(t *testing.T, s C13Scenario) (res Result) {
-	exchangeMetrics = s.Metrics
-	defer func() { exchangeMetrics = false }()
+	exchangeMetrics, exchangeRestart = s.Metrics, s.Restart
+	defer func() { exchangeMetrics, exchangeRestart = false, false }()
 	bubble(t, func() {
 		const chainID = "c13"
 		chain := vh.ChainSpec{ChainID: chainID, N: 40, StartMs: -100_000}.Build()
